@@ -96,7 +96,7 @@ pub fn kernel(k: usize, p: &[i64], ins: &[ArrayRef]) -> Result<Out, ArrowError> 
             let mut out = Vec::new(); for i in 0..x.len() { out.push(LV::Bytes(f.value(i).try_to_string()?.into_bytes())) } Out::Col(out) }
         59 => Out::Arr(arrow_select::window::shift(x.as_ref(), p[0])?),
         60 => Out::Arr(arrow_ord::sort::sort_limit(x.as_ref(), sort_opts(p), Some(p.get(2).copied().unwrap_or(1).max(0) as usize))?),
-        61 => Out::Col(vec![LV::Int(x.null_count().into()), LV::Int(x.logical_null_count().into()), LV::Int(x.len().into())]),
+        61 => Out::Col(vec![LV::Int(x.logical_null_count().into()), LV::Int(x.len().into()), LV::Bool(x.is_empty())]),
         62 => { let o = (p[0] as usize).min(x.len()); let l = (p[1] as usize).min(x.len() - o); Out::Arr(x.slice(o, l)) }
         63 => { use arrow_arith::temporal::{date_part, DatePart as D}; let part = [D::Year, D::Month, D::Day, D::Hour, D::Minute, D::Second, D::DayOfWeekSunday0, D::DayOfYear, D::Week, D::Quarter, D::Nanosecond][(p[0] as usize) % 11];
             Out::Arr(date_part(x.as_ref(), part)?) }
@@ -113,8 +113,8 @@ pub fn kernel(k: usize, p: &[i64], ins: &[ArrayRef]) -> Result<Out, ArrowError> 
 pub fn outcome(k: usize, p: &[i64], ins: &[ArrayRef]) -> Group {
     let r = std::panic::catch_unwind(std::panic::AssertUnwindSafe(|| kernel(k, p, ins)));
     match r {
-        Err(_) => vec![BigInt::from(-8)],
-        Ok(Err(_)) => vec![BigInt::from(-1)],
+        Err(e) => { if std::env::var("VERIF_PANIC_MSG").is_ok() { let m = e.downcast_ref::<String>().cloned().or_else(|| e.downcast_ref::<&str>().map(|s| s.to_string())).unwrap_or_default(); eprintln!("kernel {k} panic: {m}") } vec![BigInt::from(-8)] }
+        Ok(Err(e)) => { if std::env::var("VERIF_PANIC_MSG").is_ok() { eprintln!("kernel {k} error: {e}") } vec![BigInt::from(-1)] }
         Ok(Ok(Out::Col(c))) => { let mut g: Group = vec![1.into(), 0.into()]; g.extend(enc_col(&c)); g }
         Ok(Ok(Out::Arr(a))) => match read_lv(a.as_ref(), 0) {
             Some(c) => { let mut g: Group = vec![1.into(), fnv(&format!("{:?}", logical_type(a.data_type()))).into()]; g.extend(enc_col(&c)); g }
@@ -129,6 +129,16 @@ fn logical_type(dt: &DataType) -> DataType { dt.clone() }
 fn decode_n(a: &Args, start: usize, n: usize) -> Vec<Node> { let rest: Args = a[start..].to_vec(); let mut p = 0; (0..n).map(|_| c09::decode(&rest, &mut p)).collect() }
 
 pub fn run(op: &str, a: &Args) -> Option<Args> {
+    if std::env::var("VERIF_PANIC_MSG").is_ok() {
+        // debugging aid: show the panic message of a replayed case
+        return match std::panic::catch_unwind(std::panic::AssertUnwindSafe(|| run_inner(op, a))) {
+            Ok(o) => o,
+            Err(e) => { let m = e.downcast_ref::<String>().cloned().or_else(|| e.downcast_ref::<&str>().map(|s| s.to_string())).unwrap_or_default(); eprintln!("panic in {op}: {m}"); std::panic::resume_unwind(e) }
+        };
+    }
+    run_inner(op, a)
+}
+fn run_inner(op: &str, a: &Args) -> Option<Args> {
     let h = to_i64s(&a[0]);
     match op {
         // [path; fl; mode] tree -> logical column read through the real accessors / iterators
